@@ -19,7 +19,21 @@ def main():
     seed = int(os.environ.get('VERIF_SEED', '1'))
     os.environ['VERIF_TIER'] = tier
     ctx = vlib.Ctx(prop, tier, seed)
-    mod.run(ctx)
+    try:
+        mod.run(ctx)
+    except SystemExit:
+        raise
+    except BaseException as e:  # noqa
+        # the implementation (or the harness on top of it) failed in a way the check does not anticipate: the property is
+        # no longer shown to hold; never end without a verdict
+        import traceback
+        tb = traceback.format_exc()
+        sys.stderr.write(tb)
+        frames = [f for f in traceback.extract_tb(e.__traceback__) if '/repo/' in f.filename]
+        site = '%s:%s' % (frames[-1].filename.split('/repo/')[-1], frames[-1].name) if frames else 'harness'
+        ctx.report('check', 'check aborted by %s at %s' % (type(e).__name__, site), {},
+                   dict(theorem='the run of %s %s did not complete' % (prop, tier), exception=repr(e)[:300], traceback=tb[-1500:]),
+                   found_input=False)
     ctx.finish(getattr(mod, 'LEVEL', 'proof'))
 
 
